@@ -133,8 +133,16 @@ def finish(res: Result):
         f = findings.by_id(fid)
         print(f"KNOWN-FINDING: property={res.pid} {fid}: {f['what']} (x{n})")
     rc = 0
+    rdir = os.path.join(VERIF, "evidence", "replays")
+    if os.path.isdir(rdir):
+        # replay files of earlier runs of this check and tier are stale
+        for f in os.listdir(rdir):
+            if f.startswith(f"{res.pid}-{res.tier}-"):
+                try:
+                    os.remove(os.path.join(rdir, f))
+                except OSError:
+                    pass
     if res.violations:
-        rdir = os.path.join(VERIF, "evidence", "replays")
         os.makedirs(rdir, exist_ok=True)
         shown = 0
         seen_what = set()
